@@ -98,6 +98,12 @@ func (ex *Exec) RunPath(fn *ssa.Function) *PathResult {
 			case pathEnd:
 				res.End = e.kind.String()
 				res.Detail = e.detail
+				if e.kind == endBudget && ex.HangAsFailure {
+					// a path that does not finish within the step budget is a candidate
+					// non-termination: confirmed (or not) by the native replay under a timeout
+					ex.recordFailure("terminates", "step budget exceeded: "+e.detail, nil)
+					res.End = "stop"
+				}
 				if e.kind == endUnsupported || e.kind == endInternal || e.kind == endBudget {
 					res.Detail += " [in " + ex.StackString(4) + "]"
 				}
